@@ -284,6 +284,12 @@ func judge(out *pipe.Outcome, ix *pipe.Index) pipe.Verdict {
 			v.Inconclusive = "the fatal cause did not manifest in this run"
 			break
 		}
+		if cause == "retries-exhausted" && final != "Degraded" && final != "Recovering" {
+			// the destination failure is scripted per write ordinal: when the remaining
+			// records no longer reach it the last run simply completes
+			v.Inconclusive = "the repeating failure stopped repeating before the retry budget was used up"
+			break
+		}
 		v.Stats["fatal_causes_judged"]++
 		if final != "Degraded" {
 			add("fatal-cause-not-degraded", fmt.Sprintf("after fatal cause %q the pipeline ended %s (status history %v)", cause, final, seq))
@@ -368,7 +374,27 @@ func judge(out *pipe.Outcome, ix *pipe.Index) pipe.Verdict {
 					}
 				}
 				if tornBefore || !prevOpen && cause == "user-stop-during-backoff" || cause == "user-stop-during-backoff" {
-					add("restarted-after-accepted-stop", fmt.Sprintf("the stop request returned nil at event %d, yet a new run was started at event %d without a user start", stopRet, o), stopRet, o)
+					// did the restart begin while the stop call was still in progress? (first plugin
+					// or processor event of the new run between the Stop call and its return)
+					stopCtl := stopRet
+					for q := stopRet; q >= 0; q-- {
+						if evs[q].Kind == rig.KCtl && evs[q].Call == evs[stopRet].Call {
+							stopCtl = q
+							break
+						}
+					}
+					inProgress := false
+					for q := stopCtl; q < stopRet; q++ {
+						switch evs[q].Kind {
+						case rig.KProcOpen, rig.KPluginCall, rig.KSrcOpen, rig.KDstOpen:
+							inProgress = true
+						}
+					}
+					cl := "restarted-after-accepted-stop"
+					if inProgress {
+						cl = "stop-accepted-while-restart-already-in-progress"
+					}
+					add(cl, fmt.Sprintf("the stop request returned nil at event %d, yet a new run was started at event %d without a user start", stopRet, o), stopRet, o)
 					break
 				}
 			}
